@@ -23,6 +23,18 @@ def shard_fn(shard, nshards, seed, tier, exe, ntexts, ntrees):
     for s in CODE_TABLE + [b"[1.5", b"1.5", b"{\"a\":1.25e3,", b"-0.5e-3 "]:
         texts.append((s, rng.choice([0, 1, 0x10]), 4, rng.choice([0, 1])))
     texts.append((b"[1.5]", 0, 0, 3))  # len = -2: size error
+    # every error class through several syntactic routes (object member vs array element, nested, after a comma ...)
+    for s, d in [(b'{"a":{"b":{"c":{"d":1.5}}}}', 3), (b'[{"a":[{"b":[1.5]}]}]', 3), (b'{"a":[1.5,[2.5,[3.5]]]}', 3), (b'[1.5,{"a":{"b":2.5}}]', 2), (b'{"a":1.5,"b":{"c":{"d":2}}}', 2), (b"[[1.5]]", 1), (b'{"a":1.5}', 1),
+                 (b'{"a":1.5,"b"}', 4), (b'{"a":[1.5,}', 4), (b'[1.5,{"a":tru}]', 4), (b'{"a":{"b":nul}}', 4), (b'[{"a":"\\x"}]', 4), (b'{"a":[1.5 2.5]}', 4), (b'[{"a":1.5 "b":2}]', 4), (b'{"a":/x}', 4),
+                 (b'{"a":[-]}', 4), (b'[{"a"', 4), (b'{"a":{"b":[1.5', 4), (b'[{1:2}]', 4)]:
+        for flags in (0, 1):
+            for mode in (0, 1):
+                texts.append((s, flags, d, mode))
+    from gen.inputs import InputGen
+    ig = InputGen(rng, max_len=200)
+    for _ in range(ntexts // nshards // 2):
+        k, s = ig.next()
+        texts.append((s, rng.choice([0, 1, 0x10, 3]), rng.choice([0, 1, 2, 3, 4, 6]), rng.choice([0, 1])))
     for _ in range(ntexts // nshards):
         r = rng.random()
         if r < 0.6:
@@ -48,8 +60,17 @@ def shard_fn(shard, nshards, seed, tier, exe, ntexts, ntrees):
             if mode == 2 and b"\0" in t:
                 mode = 1
             cmds.append("LP %d %d %d x%s" % (flags, depth, mode, t.hex()))
-        for toks, flags in trees:
-            cmds += ["B 0 " + " ".join(toks), "LS 0 %d" % flags, "PUT 0"]
+        for ti, (toks, flags) in enumerate(trees):
+            cmds += ["B 0 " + " ".join(toks), "LS 0 %d" % flags]
+            k = ti % 6
+            fmt = [b"%.3f", b"%.1f", b"%e", b"%.10g", b"%f", b"%.0f"][(ti // 6) % 6]
+            if k == 1:      # global custom double format
+                cmds += ["DFMT 0 x" + fmt.hex(), "LS 0 %d" % flags, "DFMT 0 -"]
+            elif k == 2:    # per-thread custom double format
+                cmds += ["DFMT 1 x" + fmt.hex(), "LS 0 %d" % flags, "DFMT 1 -"]
+            elif k == 3:    # per-node format through json_object_set_serializer
+                cmds += ["SERFMT 0 x" + fmt.hex(), "LS 0 %d" % flags]
+            cmds.append("PUT 0")
         cmds.append("LOC 0")
         cases.append(("%d.cfg%d" % (shard, cfg), cmds))
     results, crashes = core.run_script(exe, cases, env={"LOCPATH": locale_synth.LOCDIR}, tag="c14")
@@ -69,12 +90,18 @@ def shard_fn(shard, nshards, seed, tier, exe, ntexts, ntrees):
         exp_fmt = "1.5" if cfg == 0 else "1,5"
         if ("fmt=" + exp_fmt) not in lines[0]:
             raise core.Inconclusive("locale configuration %s not in effect: %s (LOCPATH=%s)" % (CONFIGS[cfg], lines[0], locale_synth.LOCDIR))
-        for cmd, ln, bl in zip(cmds[1:-1], lines[1:-1], base[1:-1]):
+        for ci, (cmd, ln, bl) in enumerate(zip(cmds[1:-1], lines[1:-1], base[1:-1]), 1):
             op = cmd.split()[0]
             if op not in ("LP", "LS"):
                 continue
             sh.evaluations += 1
-            rep = {"driver": "jcdrv", "variant": "asan", "env": {"LOCPATH": locale_synth.LOCDIR}, "script": [cmds[0]] + ([cmds[cmds.index(cmd) - 1]] if op == "LS" else []) + [cmd], "locale": CONFIGS[cfg]}
+            pre = []
+            if op == "LS":
+                j = ci
+                while j > 0 and not cmds[j].startswith("B "):
+                    j -= 1
+                pre = cmds[j:ci]
+            rep = {"driver": "jcdrv", "variant": "asan", "env": {"LOCPATH": locale_synth.LOCDIR}, "script": [cmds[0]] + pre + [cmd], "locale": CONFIGS[cfg]}
             res, _, mon = ln.partition(" | ")
             bres = bl.partition(" | ")[0]
             m = MON.search(mon)
